@@ -26,7 +26,16 @@ Proof. destruct r, r'; cbn; intros; subst; auto; contradiction. Qed.
 Lemma holds_of_excl g r : holds_excl g r -> holds g r.
 Proof. destruct r; cbn; auto. intros (H1 & H2 & _). auto. Qed.
 
-Definition post {A} (f : A -> repr) : A -> ghost -> Prop := fun p g' => settled g' /\ holds g' (f p).
+Lemma nm_sim r r' b : sim r r' -> nm r b = nm r' b.
+Proof. destruct r, r'; cbn; intros; subst; auto; contradiction. Qed.
+Lemma cons_sim g r g' r1 r2 : cons g r g' r1 -> sim r1 r2 -> cons g r g' r2.
+Proof. intros H Hs b. rewrite <- (nm_sim r1 r2 b Hs). apply H. Qed.
+Lemma cons_refl g r : cons g r g r.
+Proof. intros b. reflexivity. Qed.
+
+(* the thread ends holding the result handle, owes nothing, and its reference counts moved exactly with the handle *)
+Definition post {A} (g : ghost) (r : repr) (f : A -> repr) : A -> ghost -> Prop :=
+  fun p g' => settled g' /\ holds g' (f p) /\ cons g r g' (f p).
 
 Lemma ok_write_at r off bs g (Q : repr -> ghost -> Prop) :
   holds_excl g r -> (forall r', sim r r' -> Q r' g) -> okc (write_at r off bs) g Q.
@@ -71,56 +80,63 @@ Proof.
 Qed.
 
 (* ---- push_str ---- *)
-Lemma ok_push_str r s g : holds g r -> settled g -> okc (push_str r s) g (post fst).
+Ltac done_same Hs Hh := cbn [okc fst]; split; [exact Hs|]; split; [exact Hh|apply cons_refl].
+
+Lemma ok_push_str r s g : holds g r -> settled g -> okc (push_str r s) g (post g r fst).
 Proof.
-  intros Hh Hs. unfold push_str, post. destruct s as [|c0 s0]; [cbn [okc fst]; auto|].
-  apply okc_bind. eapply okc_mono; [apply ok_reserve; assumption|]. intros [r1 ok] g1 (S1 & H1 & E1). cbn [fst snd] in *.
+  intros Hh Hs. unfold push_str, post. destruct s as [|c0 s0]; [done_same Hs Hh|].
+  apply okc_bind. eapply okc_mono; [apply ok_reserve; assumption|]. intros [r1 ok] g1 (S1 & H1 & E1 & C1). cbn [fst snd] in *.
   destruct ok; cbn [negb]; [|cbn [okc fst]; auto]. specialize (E1 eq_refl).
   apply okc_bind. apply ok_write_at; [exact E1|]. intros r2 Hs2.
   apply okc_bind. apply ok_set_len. intros r3 Hs3. cbn [okc fst]. split; [exact S1|].
-  eapply holds_sim; [exact Hs3|]. eapply holds_sim; [exact Hs2|exact H1].
+  split; [eapply holds_sim; [exact Hs3|]; eapply holds_sim; [exact Hs2|exact H1]|].
+  eapply cons_sim; [|exact Hs3]. eapply cons_sim; [exact C1|exact Hs2].
 Qed.
 
 (* ---- pop / truncate ---- *)
-Lemma ok_pop r g : holds g r -> settled g -> okc (pop r) g (post fst).
+Lemma ok_pop r g : holds g r -> settled g -> okc (pop r) g (post g r fst).
 Proof.
   intros Hh Hs. unfold pop, post. apply okc_bind. apply ok_as_bytes; [exact Hh|]. intros t.
-  destruct t as [|c0 t0]; [cbn [okc fst]; auto|].
-  apply okc_bind. apply ok_truncate_unchecked. intros r' Hs'. cbn [okc fst]. split; [exact Hs|]. eapply holds_sim; eauto.
+  destruct t as [|c0 t0]; [done_same Hs Hh|].
+  apply okc_bind. apply ok_truncate_unchecked. intros r' Hs'. cbn [okc fst]. split; [exact Hs|].
+  split; [eapply holds_sim; eauto|]. eapply cons_sim; [apply cons_refl|exact Hs'].
 Qed.
-Lemma ok_truncate r n g : holds g r -> settled g -> okc (truncate r n) g (post fst).
+Lemma ok_truncate r n g : holds g r -> settled g -> okc (truncate r n) g (post g r fst).
 Proof.
-  intros Hh Hs. unfold truncate, post. destruct (cond_truncate_noop n (repr_len r)); [cbn [okc fst]; auto|].
+  intros Hh Hs. unfold truncate, post. destruct (cond_truncate_noop n (repr_len r)); [done_same Hs Hh|].
   apply okc_bind. apply ok_as_bytes; [exact Hh|]. intros t.
-  destruct (negb (is_char_boundary t n)); [cbn [okc fst]; auto|].
-  apply okc_bind. apply ok_truncate_unchecked. intros r' Hs'. cbn [okc fst]. split; [exact Hs|]. eapply holds_sim; eauto.
+  destruct (negb (is_char_boundary t n)); [done_same Hs Hh|].
+  apply okc_bind. apply ok_truncate_unchecked. intros r' Hs'. cbn [okc fst]. split; [exact Hs|].
+  split; [eapply holds_sim; eauto|]. eapply cons_sim; [apply cons_refl|exact Hs'].
 Qed.
 
 (* ---- remove ---- *)
-Lemma ok_remove r idx g : holds g r -> settled g -> okc (remove r idx) g (post fst).
+Lemma ok_remove r idx g : holds g r -> settled g -> okc (remove r idx) g (post g r fst).
 Proof.
   intros Hh Hs. unfold remove, post. apply okc_bind. apply ok_as_bytes; [exact Hh|]. intros t.
-  destruct (negb (is_char_boundary t idx)); [cbn [okc fst]; auto|].
-  destruct (negb (idx <? repr_len r)); [cbn [okc fst]; auto|].
-  apply okc_bind. eapply okc_mono; [apply ok_ensure_modifiable; assumption|]. intros [r1 ok] g1 (S1 & H1 & E1). cbn [fst snd] in *.
+  destruct (negb (is_char_boundary t idx)); [done_same Hs Hh|].
+  destruct (negb (idx <? repr_len r)); [done_same Hs Hh|].
+  apply okc_bind. eapply okc_mono; [apply ok_ensure_modifiable; assumption|]. intros [r1 ok] g1 (S1 & H1 & E1 & C1). cbn [fst snd] in *.
   destruct ok; cbn [negb]; [|cbn [okc fst]; auto]. specialize (E1 eq_refl).
   apply okc_bind. apply ok_move_at; [exact E1|]. intros r2 Hs2.
   apply okc_bind. apply ok_set_len. intros r3 Hs3. cbn [okc fst]. split; [exact S1|].
-  eapply holds_sim; [exact Hs3|]. eapply holds_sim; [exact Hs2|exact H1].
+  split; [eapply holds_sim; [exact Hs3|]; eapply holds_sim; [exact Hs2|exact H1]|].
+  eapply cons_sim; [|exact Hs3]. eapply cons_sim; [exact C1|exact Hs2].
 Qed.
 
 (* ---- insert_str ---- *)
-Lemma ok_insert_str r idx s g : holds g r -> settled g -> okc (insert_str r idx s) g (post fst).
+Lemma ok_insert_str r idx s g : holds g r -> settled g -> okc (insert_str r idx s) g (post g r fst).
 Proof.
   intros Hh Hs. unfold insert_str, post. apply okc_bind. apply ok_as_bytes; [exact Hh|]. intros t.
-  destruct (negb (is_char_boundary t idx)); [cbn [okc fst]; auto|].
-  destruct (checked_add (repr_len r) (len s)) as [nl|]; [|cbn [okc fst]; auto].
-  apply okc_bind. eapply okc_mono; [apply ok_reserve; assumption|]. intros [r1 ok] g1 (S1 & H1 & E1). cbn [fst snd] in *.
+  destruct (negb (is_char_boundary t idx)); [done_same Hs Hh|].
+  destruct (checked_add (repr_len r) (len s)) as [nl|]; [|done_same Hs Hh].
+  apply okc_bind. eapply okc_mono; [apply ok_reserve; assumption|]. intros [r1 ok] g1 (S1 & H1 & E1 & C1). cbn [fst snd] in *.
   destruct ok; cbn [negb]; [|cbn [okc fst]; auto]. specialize (E1 eq_refl).
   apply okc_bind. apply ok_move_at; [exact E1|]. intros r2 Hs2.
   apply okc_bind. apply ok_write_at; [eapply holds_excl_sim; eauto|]. intros r3 Hs3.
   apply okc_bind. apply ok_set_len. intros r4 Hs4. cbn [okc fst]. split; [exact S1|].
-  eapply holds_sim; [exact Hs4|]. eapply holds_sim; [exact Hs3|]. eapply holds_sim; [exact Hs2|exact H1].
+  split; [eapply holds_sim; [exact Hs4|]; eapply holds_sim; [exact Hs3|]; eapply holds_sim; [exact Hs2|exact H1]|].
+  eapply cons_sim; [|exact Hs4]. eapply cons_sim; [|exact Hs3]. eapply cons_sim; [exact C1|exact Hs2].
 Qed.
 
 (* ---- retain ---- *)
@@ -135,35 +151,40 @@ Proof.
     + apply IH; auto.
     + cbn [okc]. apply HQ. apply sim_refl.
 Qed.
-Lemma ok_retain r pred g : holds g r -> settled g -> okc (retain r pred) g (post fst).
+Lemma ok_retain r pred g : holds g r -> settled g -> okc (retain r pred) g (post g r fst).
 Proof.
   intros Hh Hs. unfold retain, post.
-  apply okc_bind. eapply okc_mono; [apply ok_ensure_modifiable; assumption|]. intros [r1 ok] g1 (S1 & H1 & E1). cbn [fst snd] in *.
+  apply okc_bind. eapply okc_mono; [apply ok_ensure_modifiable; assumption|]. intros [r1 ok] g1 (S1 & H1 & E1 & C1). cbn [fst snd] in *.
   destruct ok; cbn [negb]; [|cbn [okc fst]; auto]. specialize (E1 eq_refl).
   apply okc_bind. apply ok_as_bytes; [exact H1|]. intros t.
   apply okc_bind. apply ok_retain_loop; [exact E1|]. intros r2 d c Hs2.
   apply okc_bind. apply ok_set_len. intros r3 Hs3. cbn [okc fst]. split; [exact S1|].
-  eapply holds_sim; [exact Hs3|]. eapply holds_sim; [exact Hs2|exact H1].
+  split; [eapply holds_sim; [exact Hs3|]; eapply holds_sim; [exact Hs2|exact H1]|].
+  eapply cons_sim; [|exact Hs3]. eapply cons_sim; [exact C1|exact Hs2].
 Qed.
 
 (* ---- drop and clear ---- *)
 Lemma ok_drop r g : holds g r -> settled g ->
-  okc (replace_inner r repr_new) g (fun r' g' => settled g' /\ holds g' r').
+  okc (replace_inner r repr_new) g (fun r' g' => settled g' /\ holds g' r' /\ cons g r g' r').
 Proof.
-  intros Hh Hs. eapply okc_mono; [apply ok_replace_inner; assumption|]. intros r' g' (-> & S' & _). split; [exact S'|exact I].
+  intros Hh Hs. eapply okc_mono; [apply ok_replace_inner; assumption|]. intros r' g' (-> & S' & Hm).
+  split; [exact S'|]. split; [exact I|]. intros x. pose proof (released_refs _ _ _ Hh Hm x) as E. unfold repr_new. cbn [nm] in *. lia.
 Qed.
-Lemma ok_clear r g : holds g r -> settled g -> okc (clear r) g (fun r' g' => settled g' /\ holds g' r').
+Lemma ok_clear r g : holds g r -> settled g -> okc (clear r) g (fun r' g' => settled g' /\ holds g' r' /\ cons g r g' r').
 Proof.
   intros Hh Hs. unfold clear. apply okc_bind. destruct r as [d|b l|s l]; cbn [is_unique].
-  - cbn [okc]. apply ok_set_len. intros r' Hs'. split; [exact Hs|]. eapply holds_sim; eauto.
-  - destruct Hh as (H1 & H2). unfold heap_is_unique. apply okc_bind. cbn [load okc]. split; [exact H1|]. split; [reflexivity|].
+  - cbn [okc]. apply ok_set_len. intros r' Hs'. split; [exact Hs|]. split; [eapply holds_sim; eauto|].
+    eapply cons_sim; [apply cons_refl|exact Hs'].
+  - pose proof Hh as (H1 & H2). unfold heap_is_unique. apply okc_bind. cbn [load okc]. split; [exact H1|]. split; [reflexivity|].
     intros v. cbn [okc]. destruct (v =? 1).
-    + apply ok_heap_set_len. intros l'. split; [exact Hs|]. cbn [holds g_refs g_free]. auto.
-    + eapply okc_mono; [apply ok_replace_inner|].
-      * cbn [holds g_refs g_free]. auto.
-      * exact Hs.
-      * intros r' g' (-> & S' & _). split; [exact S'|exact I].
-  - cbn [okc]. split; [exact Hs|exact I].
+    + apply ok_heap_set_len. intros l'. split; [exact Hs|]. split; [cbn [holds g_refs g_free]; auto|].
+      intros x. cbn [g_refs nm]. reflexivity.
+    + set (g1 := {| g_refs := g_refs g; g_excl := setf (g_excl g) b (g_excl g b || false); g_free := g_free g; g_fen := g_fen g |}).
+      assert (Hh1 : holds g1 (Heap b l)) by (cbn [holds g1 g_refs g_free]; auto).
+      eapply okc_mono; [apply (ok_replace_inner (Heap b l) repr_new g1); [exact Hh1|exact Hs]|].
+      intros r' g' (-> & S' & Hm). split; [exact S'|]. split; [exact I|].
+      intros x. pose proof (released_refs _ _ _ Hh1 Hm x) as E. cbn [g1 g_refs] in E. unfold repr_new. cbn [nm] in *. lia.
+  - cbn [okc]. split; [exact Hs|]. split; [exact I|intros x; reflexivity].
 Qed.
 
 (* ---- shrink_to ---- *)
@@ -188,41 +209,49 @@ Proof.
   split; [reflexivity|]. apply okc_bind. apply ok_heap_set_len. intros l'. cbn [okc]. apply Hs; auto.
 Qed.
 
-Lemma ok_shrink_to r m g : holds g r -> settled g -> okc (shrink_to r m) g (post fst).
+Lemma ok_shrink_to r m g : holds g r -> settled g -> okc (shrink_to r m) g (post g r fst).
 Proof.
-  intros Hh Hs. unfold post. destruct r as [d|b l|s l]; cbn [shrink_to]; try (cbn [okc fst]; split; [exact Hs|exact I]).
-  destruct Hh as (H1 & H2). apply okc_bind. cbn [hdr_cap okc]. split; [left; exact H1|]. intros oc. cbn [okc].
+  intros Hh Hs. unfold post. destruct r as [d|b l|s l]; cbn [shrink_to]; try (cbn [okc fst]; split; [exact Hs|]; split; [exact I|apply cons_refl]).
+  pose proof Hh as (H1 & H2). apply okc_bind. cbn [hdr_cap okc]. split; [left; exact H1|]. intros oc. cbn [okc].
   destruct (cond_shrink_inline _).
   { apply okc_bind. cbn [read okc]. split; [left; exact H1|]. intros t. cbn [okc]. apply okc_bind.
-    eapply okc_mono; [apply ok_replace_inner; [cbn [holds]; auto|exact Hs]|].
-    intros r' g' (-> & S' & _). cbn [okc fst]. split; [exact S'|exact I]. }
-  destruct (cond_shrink_noop _ _); [cbn [okc fst holds]; auto|].
+    eapply okc_mono; [apply ok_replace_inner; [exact Hh|exact Hs]|].
+    intros r' g' (-> & S' & Hm). cbn [okc fst]. split; [exact S'|]. split; [exact I|].
+    intros x. pose proof (released_refs _ _ _ Hh Hm x). cbn [nm] in *. lia. }
+  destruct (cond_shrink_noop _ _); [cbn [okc fst]; split; [exact Hs|]; split; [exact Hh|apply cons_refl]|].
   apply okc_bind. unfold heap_is_unique. apply okc_bind. cbn [load okc]. split; [exact H1|]. split; [reflexivity|].
   intros v. cbn [okc]. destruct (N.eqb_spec v 1) as [->|Hne].
   - apply okc_bind. apply ok_heap_realloc; [cbn [g_excl]; unfold setf; rewrite Nat.eqb_refl; apply orb_true_r|].
-    intros ok. cbn [okc fst holds g_refs g_free]. auto.
+    intros ok. cbn [okc fst holds g_refs g_free]. split; [exact Hs|]. split; [auto|]. intros x. cbn [g_refs]. reflexivity.
   - set (g1 := {| g_refs := g_refs g; g_excl := setf (g_excl g) b (g_excl g b || false); g_free := g_free g; g_fen := g_fen g |}).
     apply okc_bind. cbn [read okc]. split; [left; exact H1|]. intros t. cbn [okc].
     apply okc_bind. apply ok_heap_with_exact_capacity.
-    + cbn [okc fst holds]. split; [exact Hs|]. split; [exact H1|exact H2].
+    + cbn [okc fst holds]. split; [exact Hs|]. split; [split; [exact H1|exact H2]|]. intros x. cbn [g1 g_refs]. reflexivity.
     + intros b' l' N1 N2 N3.
       set (g2 := {| g_refs := setf (g_refs g1) b' 1%nat; g_excl := setf (g_excl g1) b' true; g_free := g_free g1; g_fen := g_fen g1 |}).
       assert (Hbb : b' <> b) by (intros ->; cbn [g1 g_refs] in N1; lia).
+      assert (Hh2 : holds g2 (Heap b l)).
+      { cbn [holds]. unfold g2, g1. cbn [g_refs g_free]. unfold setf. apply Nat.eqb_neq in Hbb. rewrite Nat.eqb_sym, Hbb. auto. }
       apply okc_bind. eapply okc_mono.
-      * apply (ok_replace_inner (Heap b l) (Heap b' l') g2).
-        -- cbn [holds]. unfold g2, g1. cbn [g_refs g_free]. unfold setf. apply Nat.eqb_neq in Hbb. rewrite Nat.eqb_sym, Hbb. auto.
-        -- exact Hs.
-      * intros r' g' (-> & S' & _ & Same). cbn [okc fst holds].
+      * apply (ok_replace_inner (Heap b l) (Heap b' l') g2); [exact Hh2|exact Hs].
+      * intros r' g' (-> & S' & Hm). pose proof (released_refs _ _ _ Hh2 Hm) as Hrel. destruct Hm as (_ & Same). cbn [okc fst holds].
         destruct (Same b' Hbb) as (E1 & E2 & E3). unfold g2, g1 in E1. cbn [g_refs] in E1. unfold setf in E1. rewrite Nat.eqb_refl in E1.
-        split; [exact S'|]. split; [lia|apply S'].
+        split; [exact S'|]. split; [split; [lia|apply S']|].
+        intros x. specialize (Hrel x). unfold g2, g1 in Hrel. cbn [g_refs nm] in Hrel |- *. unfold setf in Hrel.
+        cbn [g1 g_refs] in N1.
+        repeat match goal with |- context [Nat.eqb ?a ?c] => destruct (Nat.eqb_spec a c); subst end;
+        repeat match goal with H : context [Nat.eqb ?a ?c] |- _ => destruct (Nat.eqb_spec a c); subst end; try lia; try congruence.
 Qed.
 
 (* ---- clone ---- *)
 Lemma ok_clone' r g : holds g r -> settled g ->
   okc (make_shallow_clone r) g (fun r' g' => settled g' /\ holds g' r /\ holds g' r' /\ sim r r'
-        /\ match r with Heap b _ => g_refs g' b = S (g_refs g b) | _ => True end).
+        /\ forall x, g_refs g' x = (g_refs g x + nm r x)%nat).
 Proof.
-  intros Hh Hs. destruct r as [d|b l|s l]; cbn [make_shallow_clone holds] in *; try (cbn [okc sim]; auto).
+  intros Hh Hs. destruct r as [d|b l|s l]; cbn [make_shallow_clone holds] in *;
+    try (cbn [okc sim nm]; split; [exact Hs|]; split; [exact I|]; split; [exact I|]; split; [exact I|]; intros x; lia).
   destruct Hh as (H1 & H2). apply okc_bind. cbn [rmw okc]. split; [exact H1|]. intros v. cbn [okc].
-  cbn [holds g_refs g_free sim]. unfold setf. rewrite Nat.eqb_refl. repeat split; auto; lia.
+  cbn [holds g_refs g_free sim nm]. unfold setf. rewrite Nat.eqb_refl.
+  split; [exact Hs|]. split; [split; [lia|exact H2]|]. split; [split; [lia|exact H2]|]. split; [reflexivity|].
+  intros x. rewrite (Nat.eqb_sym x b). destruct (Nat.eqb_spec b x) as [->|]; lia.
 Qed.
